@@ -22,6 +22,10 @@ contract* the infretis engine classes rely on, nothing more:
     frames     total number of frames the program writes before it ends by itself
                (null = as many as the input asks for)
     exit_code  exit status when it ends by itself
+    exit_signal  if set (9, 11, 15, ...): the program does not exit but is KILLED BY THAT SIGNAL
+               when it ends by itself (OOM killer, batch system, crash) - the signal is not
+               sent by the engine, so no SIGTERM marker is left; the parent's
+               Popen.returncode is then -signal (a shell launcher reports 128 + signal)
     box_rate   per-MD-step change of every box number (list), default none
     accel      constant acceleration [ax, ay, az] of every atom, default none
     cut        "line" | "midline": where a frame is cut in two parts (text formats)
@@ -92,8 +96,26 @@ class Ctl:
     def finish(self, code):
         sys.stdout.flush()
         sys.stderr.flush()
+        sig = self.cfg.get("exit_signal")
         self.ack(final=True)
+        if sig:
+            self.die_of(int(sig))
         os._exit(int(code))
+
+    def die_of(self, sig):
+        """Die of signal `sig` as if somebody else had sent it (default disposition, no marker)."""
+        try:
+            import resource
+            resource.setrlimit(resource.RLIMIT_CORE, (0, 0))      # SIGSEGV: no core file
+        except Exception:  # noqa: BLE001
+            pass
+        try:
+            signal.signal(sig, signal.SIG_DFL)
+        except (OSError, ValueError):
+            pass                                                   # SIGKILL cannot be (and need not be) reset
+        os.kill(os.getpid(), sig)
+        time.sleep(5)
+        os._exit(128 + sig)
 
 
 class Stream:
